@@ -94,7 +94,10 @@ type sample struct {
 // allowedError: errors that are part of the documented behaviour of a finisher.
 func allowedError(c *chains.Chain, err error, dryRun bool) bool {
 	if err == nil {
-		return true
+		return !c.Refused
+	}
+	if c.Refused { // an update/delete without any condition is refused, dry or not
+		return errors.Is(err, gorm.ErrMissingWhereClause)
 	}
 	if dryRun && (c.Fin == "scan" || c.Fin == "rows") && errors.Is(err, gorm.ErrDryRunModeUnsupported) {
 		return true
@@ -340,6 +343,12 @@ func checkExec(rt *rapid.T, c *chains.Chain) {
 	}
 	if !allowedError(c, tx.Error, false) {
 		fail("the statement failed: %v", tx.Error)
+	}
+	if plan.Refused {
+		if len(stmts) != 0 {
+			fail("a refused operation reached the driver")
+		}
+		return
 	}
 	if len(stmts) != len(caps) || len(stmts) < len(plan.Real) || (len(stmts) > len(plan.Real)+1 && !plan.ExtraRealMany) || (len(stmts) > len(plan.Real) && !plan.ExtraReal && !plan.ExtraRealMany) {
 		fail("expected %d statement(s), the driver saw %d and gorm built %d", len(plan.Real), len(stmts), len(caps))
